@@ -1096,6 +1096,8 @@ class TT():
             raise InvalidArguments('Invalid index.')
         if index != None and any([not isinstance(i, (int, np.integer)) or i < 0 or i >= len(self.__N) for i in index]):
             raise InvalidArguments('Invalid index.')
+        if index != None and len(set(int(i) for i in index)) != len(index):
+            raise InvalidArguments('Invalid index.')
 
         if index == None:
             # the case we need to sum over all modes
@@ -1463,6 +1465,8 @@ class TT():
         # rmax is not list
         if not isinstance(rmax, list):
             rmax = [1] + len(self.__N)*[rmax] + [1]
+        elif len(rmax) != len(self.__N)+1:
+            raise InvalidArguments('The list of maximum ranks must have one entry per rank.')
 
         # call the round function
         tt_cores, R = round_tt(
@@ -1598,6 +1602,8 @@ class TT():
                 "n-model product works only with TT-tensors and not TT matrices.")
 
         if isinstance(factor_matrices, list) and isinstance(mode, list):
+            if len(factor_matrices) != len(mode):
+                raise InvalidArguments('The list of matrices and the list of modes must have the same length.')
             cores_new = [c.clone() for c in self.cores]
             for i in range(len(factor_matrices)):
                 if cores_new[mode[i]].shape[1] != factor_matrices[i].shape[1]:
